@@ -59,7 +59,11 @@ InRange(t, x) == RLt(K(t, 0), x) /\ RLe(x, K(t, NK(t) - 1))
 CenterDef(t, n, x) ==
     LET na == NAxes(t, n) IN
     IF RLt(x, K(t, n)) THEN n
-    ELSE IF RLe(K(t, na), x) THEN na - 1
+    ELSE IF x = K(t, na) THEN
+         \* the upper end of full support is evaluated from the left: it belongs to the last interval of positive length
+         LET pos == {c \in n .. na - 1 : K(t, c) # K(t, c + 1)} IN
+         IF pos = {} THEN n ELSE CHOOSE c \in pos : \A d \in pos : d <= c
+    ELSE IF RLt(K(t, na), x) THEN na - 1
     ELSE CHOOSE c \in n .. na - 1 : RLe(K(t, c), x) /\ RLt(x, K(t, c + 1))
 
 (* exact local basis row B_{c-n} .. B_c at x, and its m-th derivative *)
